@@ -16,6 +16,10 @@
  *   every <id> <api> <savecfg> <lo> <hi>   -> "E <count> ok" | "E <count> bad <k> | Dref | Dgot"
  *   one <id> <api> <savecfg> <csize>       -> "D ..."  suspending source, constant chunk size
  *   rand <id> <api> <savecfg> <seed> <count> -> "R <count> ok" | "R <count> bad <seed_i> <n> sizes.. | Dref | Dgot"
+ *   memdst <proc> <w> <h> <nc> <sub> <q> <restart> <imgseed> <seed> <single>
+ *        jpeg_mem_dest: outbuffer NULL vs application-supplied initial buffers (single = 0: sweep of size classes
+ *        1..64, around the header size, inside the entropy data, len-1, len, len+1; else that one size)
+ *        -> "M <n> ok len=.. hdr=.. hash=.." | "M <i> bad size=.. len=got/ref firstdiff=.. hdr=.."
  *   coef <id>                              -> "S nmcu=.. hash=.. warn=.." coefficients of a single-scan sequential stream,
  *                                             MCU order, zigzag order (same line as ml/C09_driver.ml `s`)
  *   enc <w> <h> <ncomp> <sub> <quality> <restart> <imgseed> <bufsize> <seed>
@@ -220,6 +224,7 @@ static void decode(int id, int api, int savecfg, int src_kind, partition *pt, di
   struct jpeg_decompress_struct c; struct my_err e; susp_src ss; FILE *volatile f = NULL;
   unsigned char *volatile workbuf = NULL; void *volatile rowbuf = NULL;
   uint64_t ph = FNV0; long guard = 0; uint64_t saved_rs = rs;
+  uint64_t live = 0; int have_live = 0;   /* a complete pass started INSIDE the last scan that ended with the input complete */
   memset(d, 0, sizeof(*d)); memset(&ss, 0, sizeof(ss));
   c.err = jpeg_std_error(&e.pub); e.pub.error_exit = my_exit; e.pub.emit_message = my_emit; e.pub.output_message = my_output;
   memset(e.wcount, 0, sizeof(e.wcount));
@@ -271,17 +276,22 @@ static void decode(int id, int api, int savecfg, int src_kind, partition *pt, di
       int c1 = (api >> 12) & 0xFFFF, rows = (api >> 4) & 0xFF, reps = api & 15, i;
       while (c1 > 0 && !jpeg_input_complete(&c)) { if (jpeg_consume_input(&c) == JPEG_SUSPENDED) FEED(); else c1--; }
       for (i = 0; i < reps && !jpeg_input_complete(&c); i++) {
-        while (!jpeg_start_output(&c, c.input_scan_number)) FEED();
+        uint64_t eh = FNV0;
+        while (!jpeg_start_output(&c, c.input_scan_number)) FEED();      /* the documented display loop */
         while (c.output_scanline < c.output_height && (rows == 255 || (int)c.output_scanline < rows)) {
           if (read_rows(&c, rowbuf, 1) == 0) FEED();
+          else eh = fnv(eh, rowbuf, (size_t)c.output_width * c.output_components * sample_size(&c));
         }
         while (!jpeg_finish_output(&c)) FEED();
+        if (c.output_scanline == c.output_height && jpeg_input_complete(&c) && c.output_scan_number == c.input_scan_number) {
+          live = eh; have_live = 1;
+        }
       }
       for (;;) { int r = jpeg_consume_input(&c); if (r == JPEG_REACHED_EOI) break; if (r == JPEG_SUSPENDED) FEED(); }
       api = 1;   /* the rest is the canonical final pass */
     }
     for (;;) {
-      int stop_early, k;
+      int stop_early, k, on_current;
       /* optional input consumption before the pass */
       if (api != 1) {
         k = (int)rb(40);
@@ -289,6 +299,7 @@ static void decode(int id, int api, int savecfg, int src_kind, partition *pt, di
       }
       final_pass = jpeg_input_complete(&c);
       while (!jpeg_start_output(&c, api == 1 || rb(4) ? c.input_scan_number : 1 + (int)rb(c.input_scan_number + 1))) FEED();
+      on_current = (c.output_scan_number == c.input_scan_number);
       /* a non-final pass may be abandoned before all rows are read */
       stop_early = (!final_pass && api != 1 && rb(3) == 0) ? (int)rb(c.output_height + 1) : -1;
       ph = FNV0;
@@ -307,11 +318,15 @@ static void decode(int id, int api, int savecfg, int src_kind, partition *pt, di
       while (!jpeg_finish_output(&c)) FEED();
       if (getenv("C09_DEBUG")) fprintf(stderr, "pass scan=%d final=%d rows=%u stop=%d hash=%016llx inscan=%d\n", c.output_scan_number, final_pass, c.output_scanline, stop_early, (unsigned long long)ph, c.input_scan_number);
       if (final_pass) break;
+      if (on_current && c.output_scanline == c.output_height && jpeg_input_complete(&c) &&
+          c.output_scan_number == c.input_scan_number) { live = ph; have_live = 1; }
     }
     header_digest(&c, d);
     while (!jpeg_finish_decompress(&c)) FEED();
   }
   d->ok = 1; d->phash = ph;
+  /* such a pass has shown every row with the data of the last scan: it must be the final image */
+  if (have_live && live != ph) { d->ok = 2; d->errcode = -88; }
   final_digest(&c, &e, d);
   jpeg_destroy_decompress(&c);
   if (f) fclose(f);
@@ -678,6 +693,68 @@ out:
   free(img); free(tmp); free(ref); free(sd.buf); free(sd.sink);
 }
 
+/* ------------------------------------------ jpeg_mem_dest with application-supplied buffers */
+static unsigned char *memdst_once(int proc, int w, int h, int nc, int sub, int quality, int restart, uint64_t imgseed,
+                                  unsigned char *img, unsigned char *tmp, long initsize, unsigned long *len, size_t *hdr)
+{
+  struct jpeg_compress_struct c; struct my_err e; unsigned char *appbuf = NULL, *out = NULL; unsigned long outsize = 0;
+  unsigned char *res = NULL; int prec = (proc == 1 || proc == 3) ? 12 : proc == 4 ? quality : 8;
+  c.err = jpeg_std_error(&e.pub); e.pub.error_exit = my_exit; e.pub.emit_message = my_emit; e.pub.output_message = my_output;
+  if (setjmp(e.jb)) { jpeg_destroy_compress(&c); if (out != appbuf) free(out); free(appbuf); *len = 0; return NULL; }
+  jpeg_create_compress(&c);
+  if (initsize > 0) { appbuf = (unsigned char *)malloc((size_t)initsize); memset(appbuf, 0xA5, (size_t)initsize); out = appbuf; outsize = (unsigned long)initsize; }
+  jpeg_mem_dest(&c, &out, &outsize);
+  setup_compress(&c, proc, w, h, nc, sub, quality, restart, imgseed);
+  jpeg_start_compress(&c, TRUE);
+  while (c.next_scanline < c.image_height) {
+    int n = 1 + (int)(c.next_scanline % 4);
+    if (c.next_scanline + n > c.image_height) n = (int)(c.image_height - c.next_scanline);
+    write_rows(&c, img, w, nc, prec, c.next_scanline, n, tmp);
+  }
+  jpeg_finish_compress(&c);
+  jpeg_destroy_compress(&c);
+  res = (unsigned char *)malloc(outsize + 1); memcpy(res, out, outsize); *len = outsize;
+  if (hdr) { size_t at = find_sos(res, outsize, 1); *hdr = at ? at + 2 + (((size_t)res[at + 2] << 8) | res[at + 3]) : 0; }
+  if (out != appbuf) free(out);
+  free(appbuf);
+  return res;
+}
+
+/* single = 0: sweep the size classes; else only that initial size */
+static void memdst_case(int proc, int w, int h, int nc, int sub, int quality, int restart, uint64_t imgseed, uint64_t seed, long single)
+{
+  int prec = (proc == 1 || proc == 3) ? 12 : proc == 4 ? quality : 8; long sizes[400]; int ns = 0, i; long k;
+  unsigned char *img = (unsigned char *)malloc((size_t)w * h * nc * 2 + 16), *tmp = (unsigned char *)malloc((size_t)w * nc * 8 + 16);
+  unsigned char *ref, *got; unsigned long L = 0, gl = 0; size_t H = 0; uint64_t save = rs;
+  make_image(img, w, h, nc, prec, imgseed);
+  ref = memdst_once(proc, w, h, nc, sub, quality, restart, imgseed, img, tmp, 0, &L, &H);     /* outbuffer = NULL */
+  if (!ref) { printf("M err\n"); free(img); free(tmp); return; }
+  if (single > 0) sizes[ns++] = single;
+  else {
+    rs = seed;
+    for (k = 1; k <= 64; k += 1 + (long)rb(6)) sizes[ns++] = k;                       /* tiny */
+    for (k = (long)H - 4; k <= (long)H + 40; k += 1 + (long)rb(3)) if (k > 0) sizes[ns++] = k;   /* around the headers */
+    for (i = 0; i < 40; i++) sizes[ns++] = (long)H + 1 + (long)rb((unsigned)(L > H + 2 ? L - H - 1 : 1));   /* inside the entropy data */
+    for (k = 128; k < (long)L; k *= 2) sizes[ns++] = k;
+    sizes[ns++] = (long)L - 1; sizes[ns++] = (long)L; sizes[ns++] = (long)L + 1; sizes[ns++] = 2 * (long)L + 7;
+  }
+  rs = save;
+  for (i = 0; i < ns; i++) {
+    size_t d = 0; int bad;
+    if (sizes[i] <= 0) continue;
+    got = memdst_once(proc, w, h, nc, sub, quality, restart, imgseed, img, tmp, sizes[i], &gl, NULL);
+    bad = !got || gl != L || memcmp(got, ref, L) != 0;
+    if (bad) {
+      while (got && d < L && d < gl && got[d] == ref[d]) d++;
+      printf("M %d bad size=%ld len=%lu/%lu firstdiff=%lu hdr=%lu\n", i + 1, sizes[i], gl, L, (unsigned long)d, (unsigned long)H);
+      free(got); free(ref); free(img); free(tmp); return;
+    }
+    free(got);
+  }
+  printf("M %d ok len=%lu hdr=%lu hash=%016llx\n", ns, L, (unsigned long)H, (unsigned long long)fnv(FNV0, ref, L));
+  free(ref); free(img); free(tmp);
+}
+
 /* ------------------------------------------------------------------ main */
 static int hexval(int ch) { return ch <= '9' ? ch - '0' : (ch | 32) - 'a' + 10; }
 
@@ -765,6 +842,10 @@ int main(void)
         }
       }
       if (!bad) { printf("R %ld ok | ", count); digest_print("D", &r); printf("\n"); }
+    } else if (!strcmp(cmd, "memdst")) {
+      int proc, w, h, nc, sub, q, rst; unsigned long long iseed, seed; long single;
+      sscanf(line + off, "%d %d %d %d %d %d %d %llu %llu %ld", &proc, &w, &h, &nc, &sub, &q, &rst, &iseed, &seed, &single);
+      memdst_case(proc, w, h, nc, sub, q, rst, iseed, seed, single);
     } else if (!strcmp(cmd, "enc")) {
       int w, h, nc, sub, q, rst; unsigned long long iseed, seed; unsigned long bs;
       sscanf(line + off, "%d %d %d %d %d %d %llu %lu %llu", &w, &h, &nc, &sub, &q, &rst, &iseed, &bs, &seed);
